@@ -105,4 +105,45 @@ def generate(seed, index):
     for _ in range(3 + r.below(8)):
         out.append(stmt(r, names, counter))
     out.append("(%s);" % expr(r, 3, names, counter))
+    if r.chance(0.5):
+        # the completion value of the script (and of an eval) after a statement with a literal condition:
+        # an `if` or loop that runs nothing completes with undefined, an empty statement with nothing
+        t = completion_tail(r, names, counter)
+        if r.chance(0.3):
+            out.append("print(eval(%s));" % js_string("%s; %s" % (lit(r), t)))
+        else:
+            out.append(t)
     return "\n".join(out)
+
+
+def js_string(s):
+    return "'" + s.replace("\\", "\\\\").replace("'", "\\'").replace("\n", "\\n") + "'"
+
+
+def completion_tail(r, names, counter):
+    c = r.choice(["true", "false", "1", "0", "''", "null"])
+    e = lambda: expr(r, 1, [], counter)
+    k = r.below(12)
+    if k == 0:
+        return "if (%s) ;" % c
+    if k == 1:
+        return "if (%s) {} else %s;" % (c, lit(r))
+    if k == 2:
+        return "if (%s) %s; else {}" % (c, lit(r))
+    if k == 3:
+        return "while (%s) { %s; break; }" % (c, lit(r))
+    if k == 4:
+        return "for (;%s;) { %s; break; }" % (c, lit(r))
+    if k == 5:
+        return "Lc: if (%s) break Lc;" % c
+    if k == 6:
+        return "if (%s) { %s } else { }" % (c, lit(r))
+    if k == 7:
+        return "if (%s) if (%s) %s; else ; else %s;" % (c, r.choice(["true", "false"]), lit(r), lit(r))
+    if k == 8:
+        return "do { %s; if (%s) break; } while (false);" % (lit(r), c)
+    if k == 9:
+        return "if (%s) var ct%d = %s;" % (c, counter[0], lit(r))
+    if k == 10:
+        return "if (%s) %s; else %s;" % (c, e(), e())
+    return "{ if (%s) ; }" % c
